@@ -344,6 +344,101 @@ pub fn main_c10(args: &Args) -> std::io::Result<()> {
             }
         }
     }
+    // ---- elliptic arcs (trigonometry: numerical comparison): split / sub-range / flip retrace the arc, the tangent is
+    // the slope, lengths of the pieces add up; inherent methods and the Segment trait
+    let na = if args.thorough() { 4000 } else { 600 };
+    for it in 0..na {
+        let r = &mut rng;
+        let pi = std::f64::consts::PI;
+        let arc = lyon_geom::Arc {
+            center: point(r.range(-10, 10) as f64, r.range(-10, 10) as f64),
+            radii: lyon_geom::vector(1.0 + r.below(8) as f64, 1.0 + r.below(8) as f64),
+            start_angle: lyon_geom::Angle::radians((r.unit_f64() - 0.5) * 4.0 * pi),
+            sweep_angle: lyon_geom::Angle::radians(match it % 4 {
+                0 => (r.unit_f64() - 0.5) * 1.9 * pi,                            // less than a half turn either way
+                1 => (1.05 + 0.9 * r.unit_f64()) * pi * if it % 8 == 1 { 1.0 } else { -1.0 }, // more than a half turn
+                2 => 2.0 * pi * if it % 8 == 2 { 1.0 } else { -1.0 },
+                _ => (r.unit_f64() - 0.5) * 4.0 * pi,
+            }),
+            x_rotation: lyon_geom::Angle::radians(if it % 3 == 0 { 0.0 } else { (r.unit_f64() - 0.5) * 2.0 * pi }),
+        };
+        if arc.sweep_angle.radians.abs() < 1e-2 {
+            continue;
+        }
+        let (t, u) = (dy(r), dy(r));
+        let (mut a, mut b) = (dy(r), dy(r));
+        if a > b {
+            std::mem::swap(&mut a, &mut b);
+        }
+        cx.st.inc("evaluations");
+        cx.st.inc("arcs");
+        let scale = 1.0 + arc.center.x.abs() + arc.center.y.abs() + arc.radii.x + arc.radii.y;
+        let eps = 1e-8 * scale;
+        let label = format!("{:?} t={} u={} range {}..{}", arc, t, u, a, b);
+        let res = catch(|| {
+            let mut bad: Vec<&'static str> = Vec::new();
+            let near = |p: Point<f64>, q: Point<f64>| (p - q).length() <= eps;
+            let (s0, s1) = arc.split(t);
+            if !near(s0.sample(u), arc.sample(t * u)) || !near(s1.sample(u), arc.sample(t + (1.0 - t) * u)) {
+                bad.push("arc split pieces do not retrace the arc");
+            }
+            if !near(arc.before_split(t).sample(u), s0.sample(u)) || !near(arc.after_split(t).sample(u), s1.sample(u)) {
+                bad.push("arc before/after_split differ from split");
+            }
+            if b > a && !near(arc.split_range(a..b).sample(u), arc.sample(a + (b - a) * u)) {
+                bad.push("arc split_range does not retrace the arc");
+            }
+            if !near(arc.flip().sample(u), arc.sample(1.0 - u)) {
+                bad.push("arc flip is not u -> 1 - u");
+            }
+            if !near(arc.from(), arc.sample(0.0)) || !near(arc.to(), arc.sample(1.0)) {
+                bad.push("arc from / to are not sample(0) / sample(1)");
+            }
+            // tangent = slope of the sampled curve
+            let h = 1e-5;
+            let tt = t.clamp(0.01, 0.99);
+            let slope = (arc.sample(tt + h) - arc.sample(tt - h)) / (2.0 * h);
+            // sample_tangent is the derivative with respect to the angle; Segment::derivative the one with respect to t
+            let tan = arc.sample_tangent(tt);
+            let der = Segment::derivative(&arc, tt);
+            if (slope - der).length() > 1e-4 * scale * arc.sweep_angle.radians.abs().max(1.0) {
+                bad.push("the derivative of an arc is not the slope of the sampled arc");
+            }
+            if (tan * arc.sweep_angle.radians - der).length() > 1e-9 * scale * 10.0 {
+                bad.push("arc sample_tangent times the sweep is not the derivative");
+            }
+            // Segment trait glue
+            if !near(Segment::sample(&arc, t), arc.sample(t)) || !near(Segment::from(&arc), arc.from()) || !near(Segment::to(&arc), arc.to())
+                || !near(Segment::split_range(&arc, a..b.max(a + 1e-3)).sample(u), arc.split_range(a..b.max(a + 1e-3)).sample(u))
+                || !near(Segment::flip(&arc).sample(u), arc.flip().sample(u))
+            {
+                bad.push("Segment trait glue differs (arc)");
+            }
+            // lengths add up
+            let tol = 1e-4;
+            let whole = arc.approximate_length(tol);
+            let parts = arc.before_split(t).approximate_length(tol) + arc.after_split(t).approximate_length(tol);
+            if !approx(whole, parts, 2e-2) {
+                bad.push("arc lengths of the split pieces do not add up");
+            }
+            if b > a + 1e-3 {
+                let ab = arc.split_range(a..b).approximate_length(tol);
+                let rest = arc.split_range(0.0..a.max(1e-9)).approximate_length(tol) + arc.split_range(b.min(1.0 - 1e-9)..1.0).approximate_length(tol);
+                if !approx(whole, ab + rest, 3e-2) {
+                    bad.push("arc lengths of the sub-ranges do not add up");
+                }
+            }
+            bad
+        });
+        match res {
+            None => cx.fail("arc operation panicked", label.clone()),
+            Some(bad) => {
+                for b in bad {
+                    cx.fail(b, label.clone());
+                }
+            }
+        }
+    }
     drop(cx);
     w.finish()?;
     st.write(&args.out.join("c10_stats.json"))
